@@ -255,7 +255,7 @@ SUBCHECKS = [
              rule="all dated shipped sets x special + random epochs in one process: conform14 vs formula with advanced parameters, 2 um"),
     SubCheck("linear_generated", check_linear, strategy=cases, nontrivial=_nt, classes=_classes,
              quick=2500, thorough=250000, shards_quick=3, shards_thorough=12, seq_groups=[["trans"], ["epoch"], ["X"]],
-             rule="(shipped | random sets) x epochs x points, with call sequences sharing the epoch or the set"),
+             fresh=(8, 64, 3), rule="(shipped | random sets) x epochs x points, with call sequences sharing the epoch or the set"),
     SubCheck("reverse_generated", check_reverse, strategy=cases, nontrivial=_nt, classes=_classes,
              quick=2500, thorough=200000, shards_quick=3, shards_thorough=12, seq_groups=[["trans"], ["epoch"], ["X"]],
              rule="T then -T at the same epoch within the second-order bound of the advanced parameters (+2 um)"),
